@@ -189,7 +189,8 @@ def judge(c, ir, mr):
     if "http" in c:
         want = "ok" if isinstance(mr, dict) and "ok" in mr else "PacketError"
         if ir["http"] != want:
-            return {"kind": "HTTP payload accepted/rejected differently from the verified reader", "why": "impl %s model %s" % (ir, mr)}
+            return {"kind": "correspondence: HTTP payload accepted/rejected differently from the verified reader (both outcomes are allowed by C04)",
+                    "why": "impl %s model %s" % (ir, mr), "no_failing_input": True}
         return None
     exp = expected(mr)
     if exp is not None and all(ir.get(k) == "PacketError" for k in ("tcp", "mtu", "uptime")):
@@ -199,7 +200,8 @@ def judge(c, ir, mr):
     if exp is not None:
         for k, v in exp.items():
             if ir.get(k) != v:
-                return {"kind": "packet accepted/rejected differently from the verified gate", "why": "%s: impl %s model %s" % (k, ir.get(k), v)}
+                return {"kind": "correspondence: packet accepted/rejected differently from the verified gate (both outcomes are allowed by C04)",
+                        "why": "%s: impl %s model %s" % (k, ir.get(k), v), "no_failing_input": True}
     return None
 
 
